@@ -41,181 +41,9 @@
 (* at the end), DevLocal.  Result: the set of <<char, glyph>> pairs with   *)
 (* glyph # 0; the inverse picks, per glyph, one of its characters.         *)
 (***************************************************************************)
-EXTENDS Integers, Sequences, FiniteSets, TLC, Json
+EXTENDS TrueTypeOps, Json
 
 CONSTANTS Cases, Dev
-
-M16 == 65536
-Mod16(x) == x % M16
-SetMin(S) == CHOOSE x \in S : \A y \in S : x <= y
-SetMax(S) == CHOOSE x \in S : \A y \in S : y <= x
-RECURSIVE AscSeq(_)
-AscSeq(S) == IF S = {} THEN <<>> ELSE <<SetMin(S)>> \o AscSeq(S \ {SetMin(S)})
-RECURSIVE Flatten(_)
-Flatten(ss) == IF ss = <<>> THEN <<>> ELSE Head(ss) \o Flatten(Tail(ss))
-RECURSIVE SumLen(_, _)
-SumLen(ss, n) == IF n = 0 THEN 0 ELSE SumLen(ss, n - 1) + Len(ss[n])
-
-\* ================================================================== encoder relation
-\* maximal runs of a sorted code sequence; "delta": consecutive codes AND consecutive glyphs; "range": consecutive codes
-RECURSIVE RunsOf(_, _, _, _)
-RunsOf(cs, cur, M, mode) ==
-  IF cs = <<>> THEN (IF cur = <<>> THEN <<>> ELSE <<cur>>)
-  ELSE IF cur = <<>> THEN RunsOf(Tail(cs), <<Head(cs)>>, M, mode)
-  ELSE LET a == cur[Len(cur)]  b == Head(cs) IN
-       IF b = a + 1 /\ (mode = "range" \/ M[b] - b = M[a] - a)
-       THEN RunsOf(Tail(cs), Append(cur, b), M, mode)
-       ELSE <<cur>> \o RunsOf(Tail(cs), <<b>>, M, mode)
-Mapped(M) == {c \in DOMAIN M : M[c] # 0}
-\* a run of consecutive codes of the domain, cut down to first mapped .. last mapped (holes inside stay, as glyph 0)
-Trim(run, M) == LET I == {i \in 1..Len(run) : M[run[i]] # 0} IN
-                IF I = {} THEN <<>> ELSE SubSeq(run, SetMin(I), SetMax(I))
-Term == [sc |-> 65535, ec |-> 65535, idd |-> 1, idr |-> 0]
-
-Enc4(M, style) ==
-  IF style \in {"delta", "single"}
-  THEN LET runs == IF style = "single" THEN [i \in 1..Cardinality(Mapped(M)) |-> <<AscSeq(Mapped(M))[i]>>]
-                   ELSE RunsOf(AscSeq(Mapped(M)), <<>>, M, "delta") IN
-       [kind |-> "f4", style |-> style, map |-> M, gia |-> <<>>,
-        segs |-> [k \in 1..Len(runs) |-> [sc |-> runs[k][1], ec |-> runs[k][Len(runs[k])],
-                                          idd |-> Mod16(M[runs[k][1]] - runs[k][1]), idr |-> 0]] \o <<Term>>]
-  ELSE \* "range0": idRangeOffset form with idDelta 0; "ranged": idDelta 65533 (= -3) and entries stored as glyph + 3;
-       \* "mixed": the first run in delta form when it can be, the others in idRangeOffset form
-       LET all == RunsOf(AscSeq(DOMAIN M), <<>>, M, "range")
-           tr == [k \in 1..Len(all) |-> Trim(all[k], M)]
-           runs == SelectSeq(tr, LAMBDA r : r # <<>>)
-           n == Len(runs) + 1
-           d == IF style = "ranged" THEN 65533 ELSE 0
-           isd(k) == style = "mixed" /\ k = 1 /\ Len(RunsOf(runs[1], <<>>, M, "delta")) = 1
-           words(k) == IF isd(k) THEN <<>> ELSE [j \in 1..Len(runs[k]) |->
-                          IF M[runs[k][j]] = 0 THEN 0 ELSE Mod16(M[runs[k][j]] - d)]
-           ws == [k \in 1..Len(runs) |-> words(k)] IN
-       [kind |-> "f4", style |-> style, map |-> M, gia |-> Flatten(ws),
-        segs |-> [k \in 1..Len(runs) |->
-                    IF isd(k) THEN [sc |-> runs[k][1], ec |-> runs[k][Len(runs[k])],
-                                    idd |-> Mod16(M[runs[k][1]] - runs[k][1]), idr |-> 0]
-                    ELSE [sc |-> runs[k][1], ec |-> runs[k][Len(runs[k])], idd |-> d,
-                          idr |-> 2 * ((n - (k - 1)) + SumLen(ws, k - 1))]] \o <<Term>>]
-
-Enc0(M) == [kind |-> "f0", style |-> "f0", map |-> M, table |-> M]
-
-\* format 2 over single-byte codes (< 256) and two-byte codes; style = <<delta, shared>>
-Hi(c) == c \div 256
-Lo(c) == c % 256
-Enc2(M, delta, shared) ==
-  LET singles == {c \in DOMAIN M : c < 256}
-      his == AscSeq({Hi(c) : c \in DOMAIN M \ singles})
-      lows(h) == {Lo(c) : c \in {x \in DOMAIN M : x >= 256 /\ Hi(x) = h}}
-      G(c) == IF c \in DOMAIN M THEN M[c] ELSE 0
-      stored(g) == IF g = 0 THEN 0 ELSE Mod16(g - delta)
-      row0 == IF singles = {} THEN <<>> ELSE [j \in 1..(SetMax(singles) - SetMin(singles) + 1) |-> stored(G(SetMin(singles) + j - 1))]
-      row(h) == [j \in 1..(SetMax(lows(h)) - SetMin(lows(h)) + 1) |-> stored(G(h * 256 + SetMin(lows(h)) + j - 1))]
-      sig(h) == <<SetMin(lows(h)), row(h)>>
-      \* subheader index of high byte his[i]: a fresh one, or (shared) the one of an earlier high byte with the same row
-      rep(i) == IF shared /\ \E j \in 1..(i - 1) : sig(his[j]) = sig(his[i])
-                THEN SetMin({j \in 1..(i - 1) : sig(his[j]) = sig(his[i])}) ELSE i
-      reps == AscSeq({rep(i) : i \in 1..Len(his)})
-      idx(i) == CHOOSE k \in 1..Len(reps) : reps[k] = rep(i)          \* 1-based index among the real subheaders 1..
-      nsub == Len(reps) + 1
-      rows == <<row0>> \o [k \in 1..Len(reps) |-> row(his[reps[k]])]
-      sub(k) == [first |-> IF k = 1 THEN (IF singles = {} THEN 0 ELSE SetMin(singles)) ELSE SetMin(lows(his[reps[k - 1]])),
-                 count |-> Len(rows[k]), delta |-> delta,
-                 roff |-> 2 * (4 * nsub + SumLen(rows, k - 1) - (4 * (k - 1) + 3))] IN
-  [kind |-> "f2", style |-> IF shared THEN "f2-shared" ELSE "f2", dl |-> delta, map |-> M,
-   keys |-> [i \in 1..Len(his) |-> <<his[i], idx(i)>>],          \* <<high byte, subheader index>>; every other byte has key 0
-   subs |-> [k \in 1..nsub |-> sub(k)], gia |-> Flatten(rows)]
-
-\* ================================================================== reference (OpenType 'cmap')
-\* format 4: word w of the memory that starts at idRangeOffset[0]
-Word4(cs, w) == IF w < Len(cs.segs) THEN cs.segs[w + 1].idr ELSE cs.gia[w - Len(cs.segs) + 1]
-InMem4(cs, w) == w >= 0 /\ w < Len(cs.segs) + Len(cs.gia)
-RefGlyph4(cs, c) ==
-  LET I == {i \in 1..Len(cs.segs) : cs.segs[i].ec >= c} IN
-  IF I = {} THEN 0
-  ELSE LET i == SetMin(I)  s == cs.segs[i] IN
-       IF s.sc > c THEN 0
-       ELSE IF s.idr = 0 THEN Mod16(c + s.idd)
-       ELSE LET g == Word4(cs, (i - 1) + s.idr \div 2 + (c - s.sc)) IN
-            IF g = 0 THEN 0 ELSE Mod16(g + s.idd)
-Codes4(cs) == UNION {cs.segs[i].sc..cs.segs[i].ec : i \in 1..Len(cs.segs)}
-
-\* format 2: word w of the memory that starts at subheader 0
-Word2(cs, w) == LET k == w \div 4 IN
-                IF k < Len(cs.subs) THEN (CASE w % 4 = 0 -> cs.subs[k + 1].first [] w % 4 = 1 -> cs.subs[k + 1].count
-                                            [] w % 4 = 2 -> cs.subs[k + 1].delta [] OTHER -> cs.subs[k + 1].roff)
-                ELSE cs.gia[w - 4 * Len(cs.subs) + 1]
-Key2(cs, b) == LET I == {i \in 1..Len(cs.keys) : cs.keys[i][1] = b} IN IF I = {} THEN 0 ELSE cs.keys[SetMin(I)][2]
-Glyph2(cs, k, j, mod) ==       \* entry j (0-based) of subheader k (0-based)
-  LET s == cs.subs[k + 1]  g == Word2(cs, 4 * k + 3 + s.roff \div 2 + j) IN
-  IF g = 0 THEN 0 ELSE IF mod THEN Mod16(g + s.delta) ELSE g + s.delta
-RefPairs2(cs) ==
-  {<<b, Glyph2(cs, 0, b - cs.subs[1].first, TRUE)>> :
-      b \in {x \in 0..255 : Key2(cs, x) = 0 /\ x >= cs.subs[1].first /\ x < cs.subs[1].first + cs.subs[1].count}}
-  \cup UNION {{<<b * 256 + cs.subs[Key2(cs, b) + 1].first + j, Glyph2(cs, Key2(cs, b), j, TRUE)>> :
-                  j \in 0..(cs.subs[Key2(cs, b) + 1].count - 1)} : b \in {x \in 0..255 : Key2(cs, x) # 0}}
-
-Unicode(p, e) == p = 0 \/ (p = 3 /\ e \in {1, 10})
-Supported(fmt) == fmt \in {0, 2, 4}
-\* later subtables overwrite earlier ones character by character
-Merge(ps, qs) == {p \in ps : ~\E q \in qs : q[1] = p[1]} \cup qs
-RECURSIVE RefDir(_, _)
-RefDir(subs, n) == IF n = 0 THEN {}
-                   ELSE IF Unicode(subs[n].p, subs[n].e) /\ Supported(subs[n].fmt)
-                        THEN Merge(RefDir(subs, n - 1), subs[n].pairs) ELSE RefDir(subs, n - 1)
-
-NonZero(ps) == {p \in ps : p[2] # 0}
-RefPairs(cs) == CASE cs.kind = "f4" -> NonZero({<<c, RefGlyph4(cs, c)>> : c \in Codes4(cs)})
-                  [] cs.kind = "f0" -> NonZero({<<c, cs.table[c]>> : c \in DOMAIN cs.table})
-                  [] cs.kind = "f2" -> NonZero(RefPairs2(cs))
-                  [] cs.kind = "dir" -> IF cs.hascmap THEN NonZero(RefDir(cs.subs, Len(cs.subs))) ELSE {}
-\* the encoder is right: decoding what it produced gives the map back (on the mapped codes)
-RoundTrip(cs) == cs.kind \in {"f4", "f0", "f2"} =>
-                   {p \in RefPairs(cs) : p[1] # 65535} = {<<c, cs.map[c]>> : c \in {x \in DOMAIN cs.map : cs.map[x] # 0}}
-
-\* ================================================================== machine
-Steps(cs) == CASE cs.kind = "f4" -> Len(cs.segs) [] cs.kind = "f0" -> 1 [] cs.kind = "f2" -> Len(cs.subs)
-               [] cs.kind = "dir" -> IF cs.hascmap THEN Len(cs.subs) ELSE 0
-S0 == [i |-> 0, pairs |-> {}, err |-> "none", pc |-> "run"]
-
-SegPairs(cs, i, dev) ==
-  LET s == cs.segs[i]
-      base == IF "F4RangeBase" \in dev THEN 0 ELSE i - 1 IN
-  IF s.idr = 0 THEN {<<c, Mod16(c + s.idd)>> : c \in s.sc..s.ec}
-  ELSE {<<c, LET g == Word4(cs, base + s.idr \div 2 + (c - s.sc)) IN
-             IF g = 0 /\ "F4ZeroDelta" \notin dev THEN 0 ELSE Mod16(g + s.idd)>> : c \in s.sc..s.ec}
-SegInMem(cs, i, dev) ==
-  LET s == cs.segs[i]  base == IF "F4RangeBase" \in dev THEN 0 ELSE i - 1 IN
-  s.idr = 0 \/ \A c \in s.sc..s.ec : InMem4(cs, base + s.idr \div 2 + (c - s.sc))
-
-SubPairs(cs, k, dev) ==      \* subheader k (0-based)
-  LET s == cs.subs[k + 1]
-      B == {b \in 0..255 : Key2(cs, b) = k}
-      G(j) == Glyph2(cs, k, j, "F2NoModulo" \notin dev)
-      J == 0..(s.count - 1) IN
-  IF k = 0 /\ "F2SingleHigh" \notin dev
-  THEN \* subheader 0 serves the single-byte codes (a byte that starts two-byte codes is not one of them)
-       {<<s.first + j, G(j)>> : j \in {x \in J : Key2(cs, s.first + x) = 0}}
-  ELSE LET highs == IF B = {} THEN (IF "F2OneHigh" \in dev THEN {0} ELSE {})
-                    ELSE IF k = 0 \/ "F2OneHigh" \in dev THEN {SetMax(B)} ELSE B IN
-       {<<h * 256 + s.first + j, G(j)>> : h \in highs, j \in J}
-
-Step(m, cs, dev) ==
-  IF m.i = Steps(cs) THEN [m EXCEPT !.pc = "done"]
-  ELSE LET i == m.i + 1 IN
-  CASE cs.kind = "f4" -> IF SegInMem(cs, i, dev) THEN [m EXCEPT !.i = i, !.pairs = Merge(m.pairs, SegPairs(cs, i, dev))]
-                         ELSE [m EXCEPT !.err = "CMapNotFound", !.pc = "done"]     \* struct.error -> CMapNotFound
-    [] cs.kind = "f0" -> [m EXCEPT !.i = i, !.pairs = {<<c, cs.table[c]>> : c \in DOMAIN cs.table}]
-    [] cs.kind = "f2" -> [m EXCEPT !.i = i, !.pairs = Merge(m.pairs, SubPairs(cs, i - 1, dev))]
-    [] cs.kind = "dir" -> LET s == cs.subs[i] IN
-         IF ~Unicode(s.p, s.e) THEN [m EXCEPT !.i = i]
-         ELSE IF Supported(s.fmt) THEN [m EXCEPT !.i = i, !.pairs = Merge(m.pairs, s.pairs)]
-         ELSE IF "BadFormatAsserts" \in dev THEN [m EXCEPT !.err = "AssertionError", !.pc = "done"]
-         ELSE [m EXCEPT !.i = i]
-\* what create_unicode_map hands out: the pairs with a glyph, or CMapNotFound when there is none
-Result(m) == IF m.err # "none" THEN [err |-> m.err, pairs |-> {}]
-             ELSE IF NonZero(m.pairs) = {} THEN [err |-> "CMapNotFound", pairs |-> {}]
-             ELSE [err |-> "none", pairs |-> NonZero(m.pairs)]
-RefResult(cs) == IF RefPairs(cs) = {} THEN [err |-> "CMapNotFound", pairs |-> {}] ELSE [err |-> "none", pairs |-> RefPairs(cs)]
 
 VARIABLES case, mi, mc
 vars == <<case, mi, mc>>
@@ -241,7 +69,9 @@ MachineRef == Done => Result(mi) = RefResult(case)
 NoIntendedError == mi.err = "none"
 \* NOT expected to hold while Dev is non-empty: the refutation handle
 AsCodedRef == Done => Result(mc) = RefResult(case)
-DevLocal == Done /\ Result(mc) # Result(mi) => Dev # {}
+Fired == IF Result(mc) = Result(mi) THEN {}
+         ELSE {d \in Dev : Result(RunAll(S0, case, Dev)) # Result(RunAll(S0, case, Dev \ {d}))}
+DevLocal == Done /\ Result(mc) # Result(mi) => Fired # {}
 
-Emit == Done => PrintT("@@" \o ToJson([cs |-> case, i |-> Result(mi), c |-> Result(mc)]))
+Emit == Done => PrintT("@@" \o ToJson([cs |-> case, i |-> Result(mi), c |-> Result(mc), f |-> Fired]))
 =============================================================================
